@@ -56,6 +56,7 @@ def TempModel.WellFormed (m : TempModel R) : Prop := m.LengthsOk ∧ m.TablesNon
 def CompModel.WellFormed : CompModel R → Prop
   | .uniform rng _ comps fractions => rng.WellFormed ∧ fractions.length = comps.length
   | .random rng _ comps minValue maxValue => rng.WellFormed ∧ minValue.length = comps.length ∧ maxValue.length = comps.length
+  | .tianWater rng _ _ _ => rng.WellFormed
 
 def VelModel.WellFormed : VelModel R → Prop
   | .uniformRaw rng .. => rng.WellFormed
@@ -95,9 +96,14 @@ def StrictAscending (xs : List R) : Prop := ∀ (i : Nat) (a b : R), xs[i]? = so
 def LineComp.WellFormed : LineComp R → Prop
   | .uniform _ _ _ comps fractions => fractions.length = comps.length
   | .smooth _ _ _ _ comps topF bottomF => topF.length = comps.length ∧ bottomF.length = comps.length
+  | .tianWater .. => True
 
 def LineGrains.WellFormed : LineGrains R → Prop
   | .uniform _ _ comps mats sizes => mats.length = comps.length ∧ sizes.length = comps.length
+  | .randomUniform _ _ comps sizes normalize => sizes.length = comps.length ∧ normalize.length = comps.length
+  | .randomUniformDeflected _ _ comps basis sizes normalize deflections =>
+    basis.length = comps.length ∧ sizes.length = comps.length ∧ normalize.length = comps.length ∧ deflections.length = comps.length
+  | .drawn _ => True
 
 def Segment.WellFormed (s : Segment R) : Prop :=
   (∀ m ∈ s.comps, m.WellFormed) ∧ (∀ m ∈ s.grains, m.WellFormed)
